@@ -24,8 +24,8 @@ RULE = (
     "by the document."
 )
 ASSUMPTIONS = [
-    "not generated: !important, percentage stroke widths, several classes on one element, a color property anywhere but on the "
-    "outermost svg (CSS 3 and 4 disagree on inherited currentColor), <style> after the elements it selects (the parser is "
+    "not generated: !important, percentage stroke widths, several classes on one element, a color property below an ancestor that "
+    "hands down a fill/stroke of currentColor or on elements instantiated through use (CSS 3 and 4 disagree on inherited currentColor), <style> after the elements it selects (the parser is "
     "a single streaming pass), vector-effect together with caller/svg transforms or nested svg (which transform is 'the "
     "viewport transform' is then disputed)",
     "effective stroke width = stroke_width * sqrt|det(shape.transform)|, compared with base * sqrt|det(accumulated "
@@ -34,7 +34,7 @@ ASSUMPTIONS = [
 ]
 TOLERANCES = {"stroke width": "(1e-9 + 2e-12 / scale) relative (12-decimal viewport transform text)", "colour": "exact RGBA (opacity folded with 1/255 rounding)"}
 SOURCES = ["attr", "*", "type", ".class", "type.class", "#id", "inline"]
-MANDATORY_LABELS = {"quick": ["winner:%s" % s for s in SOURCES] + ["inherited", "inherited:through-use", "currentColor", "opacity-folded", "vector-effect", "det:negative", "display:none-by-rule"]}
+MANDATORY_LABELS = {"quick": ["winner:%s" % s for s in SOURCES] + ["inherited", "inherited:through-use", "currentColor", "currentColor:own-color", "opacity-folded", "vector-effect", "det:negative", "display:none-by-rule"]}
 MANDATORY_LABELS["thorough"] = MANDATORY_LABELS["quick"]
 
 WIDTHS = ["2", "0.5", "3", "1.5", "4px", "3pt", "10", "0.25"]
@@ -96,6 +96,36 @@ def decode(d):
             n["hidden_by_rule"] = True
     if d.chance(3, 8):
         root["attrs"]["color"] = d.choice(docgen.PALETTE)
+    # `color` away from the root: unambiguous (CSS 3 = CSS 4) as long as no ancestor hands down a fill/stroke of
+    # currentColor, and the element is not instantiated through a use (its ancestors then depend on the instance)
+    def says_current(n):
+        vals = [n["attrs"].get("fill"), n["attrs"].get("stroke"), (n.get("style") or {}).get("fill"), (n.get("style") or {}).get("stroke")]
+        for r in rules:
+            if any(docref.matches(sel, n) for sel in r["sel"]):
+                vals += [r["decl"].get("fill"), r["decl"].get("stroke")]
+        return "currentColor" in vals
+
+    referenced = set()
+    index = {n["id"]: n for n in nodes}
+    for n in nodes:
+        if n["tag"] == "use" and n.get("href") in index:
+            for m, _ in docgen.walk(index[n["href"]]):
+                referenced.add(m["id"])
+    for n, parents in docgen.walk(root):
+        if n is root or n["tag"] == "defs" or n["id"] in referenced or n["tag"] == "use":
+            continue
+        if any(says_current(p) for p in parents):
+            continue
+        if d.chance(1, 6):
+            src = d.choice(["attr", "inline", "#id"])
+            val = d.choice(docgen.PALETTE)
+            if src == "attr":
+                n["attrs"]["color"] = val
+            elif src == "inline":
+                n["style"]["color"] = val
+            else:
+                rules.append({"sel": ["#" + n["id"]], "decl": {"color": val}})
+            n["own_color"] = True
     # a type rule for 'svg' would also select the outermost svg: only generated for documents without nested svg... none
     rules = [r for r in rules if r["sel"] != ["svg"]]
     # shuffle the rules (order matters only among equal specificity) and merge some into selector lists
@@ -185,8 +215,11 @@ def analyse(doc, want, o):
                 if any(index[i][0]["tag"] == "use" for i in w["idpath"][:-1]):
                     o.label("inherited:through-use")
                     nontrivial = True
-        if w["paint"]["fill"] != docref.specified(n, css).get("fill", None) and docref.specified(n, css).get("fill") == "currentColor":
+        spec = docref.specified(n, css)
+        if spec.get("fill") == "currentColor" or spec.get("stroke") == "currentColor":
             o.label("currentColor")
+            if "color" in spec and n is not doc["root"]:
+                o.label("currentColor:own-color")
     return nontrivial
 
 
